@@ -234,10 +234,8 @@ def run(tier):
     seen = {}
     for t in texts:
         key = json.dumps(substitute(by_id[t["id"]]["prog"], {}), sort_keys=True) if False else t["id"]
-        if t["text"] in seen and seen[t["text"]] != key:
-            a1, a2 = by_id[seen[t["text"]]]["prog"], by_id[key]["prog"]
-            if json.dumps(substitute(a1, {}), sort_keys=True) != json.dumps(substitute(a2, {}), sort_keys=True):
-                pass  # different ASTs with equal text can only differ in rendering-only fields; checked below by the parser anyway
+        # two generated ASTs may render to one text (they then differ in rendering-only fields at most); the parser comparison
+        # below judges each of them against that text anyway
         seen[t["text"]] = key
     # ends of input the layout pool cannot express: a comment that runs to the end of the text, no final line break, trailing
     # blanks (the AST and every location stay the same)
